@@ -48,6 +48,11 @@ theorem name_methods_only_at_top :
                         (e.method != "_modification" || e.path == ["modification"])) = true := by
   decide +kernel
 
+/-- the predicate and effector tables written into the reader model are those of the repository -/
+theorem predicates_and_effectors_match :
+    C13.valuePredicates = C13.Gen.valuePredicates ∧ C13.paramEffectors = C13.Gen.paramEffectors := by
+  decide +kernel
+
 /-- the per-line handlers of the whole-file reader never rename a block / modification outside its own
 top-level section (hypothesis of `blocks_declared_last_wins` / `modifications_declared_last_wins`) -/
 theorem reader_name_stable :
